@@ -20,6 +20,8 @@ def check_formulas(fs, timeout_ms=20000, use_cvc5=True, want_model=True):
     fs = list(fs)
     ax = real.axioms_for(fs)
     # second round: axioms may introduce new exp/log terms (exp(x), exp(y) from exp(x+y))
+    ax1b = real.axioms_for(fs + ax)
+    ax = ax + ax1b
     ax2 = real.axioms_for(fs + ax, sumsplit=False)
     allf = fs + ax + [a for a in ax2 if not any(a.eq(b) for b in ax[:0])]
     s = _solver(timeout_ms)
@@ -51,9 +53,30 @@ def check_formulas(fs, timeout_ms=20000, use_cvc5=True, want_model=True):
     return "unknown", None, "z3", time.time() - t0
 
 
+def is_definitive(fs):
+    """A `sat` answer is definitive only for quantifier-free formulas without the axiomatised
+    T-REAL symbols: there the model is a genuine counterexample of the contract.  With quantified
+    lemmas or exp/log axioms instantiated on ground terms, `sat` may just mean a missing instance."""
+    todo, seen = list(fs), set()
+    while todo:
+        t = todo.pop()
+        if t.get_id() in seen:
+            continue
+        seen.add(t.get_id())
+        if z3.is_quantifier(t):
+            return False
+        if z3.is_app(t):
+            if any(t.decl().eq(d) for d in (real.EXP, real.LOG, real.SQRT, real.POW)):
+                return False
+            todo.extend(t.children())
+    return True
+
+
 def discharge(ob, timeout_ms=20000):
-    st, model, backend, secs = check_formulas(ob.formula(), timeout_ms)
+    fs = ob.formula()
+    st, model, backend, secs = check_formulas(fs, timeout_ms)
     ob.status, ob.model, ob.backend, ob.time = st, model, backend, secs
+    ob.definitive = (st != "violated") or is_definitive(fs)
     return ob
 
 
